@@ -90,9 +90,12 @@ def depth2(C1):
     return out
 
 
-def cont_class(c):
-    """Input class of a container for signatures: the classes of the special strings it holds if any (the container kind is then beside the point), else its kind."""
+def cont_class(c, failing_alone=()):
+    """Input class of a container for signatures: the classes of the special strings it holds if any (the container kind is then beside the point), else its kind.
+    Classes of strings that fail in the same way on their own (outside any container) take the blame alone."""
     cls = sorted(set(c[2]))
+    blamed = [x for x in cls if x.replace("(as a key) ", "") in failing_alone]
+    cls = blamed or cls
     return ("container holding a String " + " and a String ".join(cls)) if cls else c[1]
 
 
@@ -171,6 +174,10 @@ def run(ctx):
     back, n = run_batched(ctx, T, lambda t: f"print({t})", 10)
     execs += n
     n_ok = 0
+    failing_alone = {}
+    for s, t, (got, fail) in zip(strings, T, back):
+        if fail:
+            failing_alone.setdefault(fail[0], set()).add(str_class(s))
     for s, t, (got, fail) in zip(strings, T, back):
         d = {"string": s, "string_chars": [c if c.isprintable() and c != " " else repr(c) for c in s], "printed_form": t}
         cli = "garden run <file containing: print(" + t.replace("\n", "\\n") + ")>"
@@ -256,7 +263,7 @@ def run(ctx):
         cli = "garden run <file containing the struct/enum prefix and: print(string_repr(" + t + "))>"
         if fail:
             ctx.outcome("container: printed form " + fail[0])
-            ctx.violation(f"{cont_class(c)}: printed form {fail[0]}", dict(d, kind=c[1], error=fail[1]), cli_cmd=cli)
+            ctx.violation(f"{cont_class(c, failing_alone.get(fail[0], ()))}: printed form {fail[0]}", dict(d, kind=c[1], error=fail[1]), cli_cmd=cli)
         elif t2 != t:
             ctx.violation(f"{cont_class(c)}: printed form reads back as a different value", dict(d, kind=c[1], read_back=t2), cli_cmd=cli)
         else:
